@@ -243,13 +243,14 @@ impl<'a> CompilerState<'a> {
         let mut line_number: usize = 0;
         let mut char_number = 0;
         for c in self.preprocessed_utf8.chars() {
-            if char_number == loc {
+            if char_number >= loc {
                 break;
             }
             if c == '\n' {
                 line_number += 1;
             }
-            char_number += 1;
+            // loc is a byte offset
+            char_number += c.len_utf8();
         }
         let included_in = self.mapped_lines[line_number]
             .2
@@ -267,13 +268,14 @@ impl<'a> CompilerState<'a> {
         let mut line_number: usize = 0;
         let mut char_number = 0;
         for c in self.preprocessed_utf8.chars() {
-            if char_number == loc {
+            if char_number >= loc {
                 break;
             }
             if c == '\n' {
                 line_number += 1;
             }
-            char_number += 1;
+            // loc is a byte offset
+            char_number += c.len_utf8();
         }
         let included_in = self.mapped_lines[line_number]
             .2
@@ -291,13 +293,14 @@ impl<'a> CompilerState<'a> {
         let mut line_number: usize = 0;
         let mut char_number = 0;
         for c in self.preprocessed_utf8.chars() {
-            if char_number == loc {
+            if char_number >= loc {
                 break;
             }
             if c == '\n' {
                 line_number += 1;
             }
-            char_number += 1;
+            // loc is a byte offset
+            char_number += c.len_utf8();
         }
         let included_in = self.mapped_lines[line_number]
             .2
